@@ -74,6 +74,8 @@ var srcTargets = []srcTarget{
 	{Group: "ValidateClaims", Recv: "Import", Name: "Validate", Only: "V2"},
 	{Group: "ValidateClaims", Recv: "Imports", Name: "Validate", Only: "V2"},
 	{Group: "ValidateClaims", Recv: "OperatorLimits", Name: "Validate", Only: "V2"},
+	{Group: "ValidateClaims", Recv: "WeightedMapping", Name: "GetWeight", Only: "V2"},
+	{Group: "ValidateClaims", Recv: "Mapping", Name: "Validate", Only: "V2"},
 	{Group: "ValidateClaims", Recv: "AuthorizationRequestClaims", Name: "Validate", Only: "V2"},
 	{Group: "ValidateClaims", Recv: "AuthorizationResponseClaims", Name: "Validate", Only: "V2"},
 	{Group: "ValidateClaims", Recv: "GenericClaims", Name: "Validate", Only: "V2"},
@@ -82,6 +84,7 @@ var srcTargets = []srcTarget{
 	{Group: "ValidateClaims", Recv: "Permission", Name: "Validate", Only: "V2"},
 	{Group: "ValidateClaims", Recv: "ResponsePermission", Name: "Validate", Only: "V2"},
 	{Group: "ValidateClaims", Recv: "Permissions", Name: "Validate", Only: "V2"},
+	{Group: "ValidateClaims", Recv: "Limits", Name: "Validate", Only: "V2"},
 	{Group: "ValidateClaims", Recv: "User", Name: "Validate", Only: "V2"},
 	{Group: "ValidateClaims", Recv: "UserClaims", Name: "Validate", Only: "V2"},
 	{Group: "ValidateClaims", Recv: "ExternalAuthorization", Name: "Validate", Only: "V2"},
@@ -590,15 +593,15 @@ func (t *tr) expr(e ast.Expr) string {
 				return "(" + a + " ++ " + b + ")%string"
 			}
 			if t.isInt(x.X) {
-				return "(" + a + " + " + b + ")%Z"
+				return narrow(t.info.TypeOf(x), "("+a+" + "+b+")%Z")
 			}
 		case token.SUB:
 			if t.isInt(x.X) {
-				return "(" + a + " - " + b + ")%Z"
+				return narrow(t.info.TypeOf(x), "("+a+" - "+b+")%Z")
 			}
 		case token.MUL:
 			if t.isInt(x.X) {
-				return "(" + a + " * " + b + ")%Z"
+				return narrow(t.info.TypeOf(x), "("+a+" * "+b+")%Z")
 			}
 		}
 		t.fail(e, "binary operator %s on %s", x.Op, t.info.TypeOf(x.X))
@@ -768,6 +771,9 @@ func (t *tr) knownArgs(x *ast.CallExpr, o types.Object, recvPrefix string) []str
 		switch {
 		case ap.global:
 			as = append(as, t.observe(ap.rel, ap.ty))
+		case ap.root == -1 && strings.HasPrefix(recvPrefix, "\x01"):
+			// the receiver is a local variable holding a plain struct (a tuple): the observation is that field of it
+			as = append(as, t.tupleField(x, recvPrefix[1:], ap.rel))
 		case ap.root == -1:
 			if recvPrefix == "" {
 				t.fail(x, "call of a function that observes a receiver it is not given")
@@ -854,6 +860,48 @@ func (t *tr) calleeOf(c *ast.CallExpr) types.Object {
 	return nil
 }
 
+// narrow: arithmetic in an integer type of fewer than 64 bits wraps: the result is taken modulo the type's range
+// (the 64-bit types and int / uint are read as unbounded integers: trusted reading)
+func narrow(ty types.Type, v string) string {
+	b, ok := ty.Underlying().(*types.Basic)
+	if !ok {
+		return v
+	}
+	switch b.Kind() {
+	case types.Uint8:
+		return "(go_wrap_u 8 " + v + ")"
+	case types.Uint16:
+		return "(go_wrap_u 16 " + v + ")"
+	case types.Uint32:
+		return "(go_wrap_u 32 " + v + ")"
+	case types.Int8:
+		return "(go_wrap_s 8 " + v + ")"
+	case types.Int16:
+		return "(go_wrap_s 16 " + v + ")"
+	case types.Int32:
+		return "(go_wrap_s 32 " + v + ")"
+	}
+	return v
+}
+
+// tupleField: the projection of the field named by an observation suffix ("_Weight") out of a tuple-valued expression
+func (t *tr) tupleField(n ast.Node, tupleExprAndType string, rel string) string {
+	parts := strings.SplitN(tupleExprAndType, "\x01", 2) // Coq expression, then the field names joined by commas
+	fields := strings.Split(parts[1], ",")
+	var pat []string
+	pick := ""
+	for i, f := range fields {
+		pat = append(pat, fmt.Sprintf("go_f%d", i))
+		if "_"+f == rel {
+			pick = pat[i]
+		}
+	}
+	if pick == "" {
+		t.fail(n, "observation %s of a plain struct value", rel)
+	}
+	return "(let '(" + strings.Join(pat, ", ") + ") := " + parts[0] + " in " + pick + ")"
+}
+
 // isAbstractParam: a parameter known through observations only (as translateFunc classifies it)
 func isAbstractParam(ty types.Type) bool {
 	if isVR(ty) {
@@ -914,6 +962,13 @@ func (t *tr) call(x *ast.CallExpr) string {
 	// conversions
 	if tv, ok := t.info.Types[x.Fun]; ok && tv.IsType() {
 		if len(x.Args) == 1 && t.coqType(x, tv.Type) == t.coqType(x.Args[0], t.info.TypeOf(x.Args[0])) {
+			if t.isInt(x.Args[0]) {
+				if src, ok := t.info.TypeOf(x.Args[0]).Underlying().(*types.Basic); ok {
+					if dst, ok := tv.Type.Underlying().(*types.Basic); ok && dst.Kind() != src.Kind() && t.info.Types[x.Args[0]].Value == nil {
+						return narrow(tv.Type, t.expr(x.Args[0])) // a conversion to a narrower integer type cuts the value down
+					}
+				}
+			}
 			return t.expr(x.Args[0])
 		}
 		t.fail(x, "conversion to %s", tv.Type)
@@ -1090,6 +1145,15 @@ func (t *tr) call(x *ast.CallExpr) string {
 				t.fail(x, "call of %s, which updates its receiver, inside an expression", exprText(f))
 			}
 			if n, ok := t.known[sel.Obj()]; ok {
+				if lid, isId := f.X.(*ast.Ident); isId && t.names[t.info.Uses[lid]] != "" && isPlainStruct(derefType(t.info.TypeOf(lid))) && recvIsStruct(sel.Obj()) {
+					// a translated method of a plain struct held in a local variable: its observations are fields of the tuple
+					st := derefType(t.info.TypeOf(lid)).Underlying().(*types.Struct)
+					var fs []string
+					for i := 0; i < st.NumFields(); i++ {
+						fs = append(fs, st.Field(i).Name())
+					}
+					return "(" + n + " " + valArgs(sel.Obj()) + strings.Join(t.knownArgs(x, sel.Obj(), "\x01"+t.names[t.info.Uses[lid]]+"\x01"+strings.Join(fs, ",")), " ") + ")"
+				}
 				if prefix, isAbs := t.absPath(f.X); isAbs && t.absParams[sel.Obj()] != nil && recvIsStruct(sel.Obj()) {
 					// a translated method of an abstract value: its observations become ours, under our name for the value
 					return "(" + n + " " + valArgs(sel.Obj()) + strings.Join(t.knownArgs(x, sel.Obj(), prefix), " ") + ")"
@@ -1631,9 +1695,9 @@ func (t *tr) block0(stmts []ast.Stmt, c sctx, ind string) string {
 			v := t.expr(x.Rhs[0])
 			switch {
 			case t.isInt(x.Lhs[0]) && x.Tok == token.ADD_ASSIGN:
-				return "let " + n + " := (" + n + " + " + v + ")%Z in" + nl + t.block(rest, c, ind)
+				return "let " + n + " := " + narrow(t.info.TypeOf(x.Lhs[0]), "("+n+" + "+v+")%Z") + " in" + nl + t.block(rest, c, ind)
 			case t.isInt(x.Lhs[0]):
-				return "let " + n + " := (" + n + " - " + v + ")%Z in" + nl + t.block(rest, c, ind)
+				return "let " + n + " := " + narrow(t.info.TypeOf(x.Lhs[0]), "("+n+" - "+v+")%Z") + " in" + nl + t.block(rest, c, ind)
 			case t.isStr(x.Lhs[0]) && x.Tok == token.ADD_ASSIGN:
 				return "let " + n + " := (" + n + " ++ " + v + ")%string in" + nl + t.block(rest, c, ind)
 			}
@@ -2329,8 +2393,8 @@ func isPlainStruct(ty types.Type) bool {
 		return false
 	}
 	isIssue := false
-	if named, ok := ty.(*types.Named); ok && named.Obj().Name() == "ValidationIssue" {
-		isIssue = true // (an issue is its text and its two flags; its one method only returns the text)
+	if named, ok := ty.(*types.Named); ok && (named.Obj().Name() == "ValidationIssue" || named.Obj().Name() == "WeightedMapping") {
+		isIssue = true // (an issue is its text and its two flags, a weighted mapping its three fields; their one method only reads a field)
 	}
 	if !isIssue && types.NewMethodSet(types.NewPointer(ty)).Len() > 0 {
 		return false // a type with behaviour of its own is an abstract value
